@@ -270,7 +270,13 @@ impl Mux {
                         length -= size;
                     }
                 }
-                _ => unreachable!("bad FrameKind"),
+                // Both kind bits set: not a frame kind of the protocol.
+                kind => {
+                    return Err(RunError::Protocol(anyhow::format_err!(
+                        "bad frame kind {:#06x}",
+                        kind.0
+                    )))
+                }
             }
         }
     }
